@@ -73,11 +73,8 @@ class C14(PropBase):
                 fails.append(dict(index=0, op=['annotate', k], what='%s = %r, argmin = %r' % (k, sorted(got), sorted(v))))
             if not got <= set(ps):
                 fails.append(dict(index=0, op=['annotate', k], what='%s returns a path that is not an input path' % k))
-        # the primary classes keep multiplicity
-        for k, f in (('shortest', L), ('fastest', D), ('foremost', A)):
-            m = min(f(x) for x in ps)
-            if sorted(r.get(k, [])) != sorted(x for x in ps if f(x) == m):
-                fails.append(dict(index=0, op=['annotate', k], what='%s does not keep each minimal input path (multiplicity)' % k))
+        # how often a repeated input path is reported is not fixed by the property (today: kept under the primary
+        # criteria, collapsed under the secondary ones): classes are compared as sets
         return fails
 
     def nontrivial(self, case, prog, ri):
